@@ -8,7 +8,7 @@ var (
 	roles   = []string{"primary", "replica", "noprimary"}
 	methods = []string{"GET", "POST", "DELETE", "PUT", "HEAD", "PATCH"}
 	paths   = []string{"/export", "/halt", "/handoff", "/import", "/info", "/promote", "/stream", "/tx", "/events"}
-	names   = []string{"absent", "empty", "known", "unknown", "slash", "dotdot"}
+	names   = []string{"absent", "empty", "known", "unknown", "slash", "dotdot", "dot", "parent"}
 	ids     = []string{"absent", "garbage", "empty", "zero", "other", "neg", "overflow", "held"}
 	nodesP  = []string{"absent", "garbage", "self", "connected", "unknown"}
 	hdrs    = []string{"absent", "self", "other", "garbage"}
